@@ -48,7 +48,9 @@ def shareCause (out : Str) (b : Board) (evs : List Ev) : String :=
     | [] => false
     | .write w :: r => (removesOf r).any (fun d => underOrEq d w) || removedLater r
     | _ :: r => removedLater r
-  if dupIndex && (boardNames b).contains sIndex then "/index-name"
+  let unclean := (boardNames b).drop 1 |>.any fun n => n.isEmpty || n.contains '/' || n == dot || n == dotdot
+  if unclean then "/unclean-name"
+  else if dupIndex && (boardNames b).contains sIndex then "/index-name"
   else if removedLater evs && (boardNames b).any (fun n => e.isSuffixOf n) then "/ext-named-dir"
   else ""
 
